@@ -8,10 +8,17 @@ if grep -rnE '\b(Admitted|admit|Axiom|Parameter|Conjecture|Admit Obligations)\b|
   echo "forbidden declaration found" >&2; exit 2
 fi
 /venv/bin/python - <<'PY'
+import json, sys
 from harness import common as cm
 cm.regenerate_consts()
 cm.build_ext()
-ok, log = cm.coq_make([], timeout=3000)
-print(log[-3000:])
+man = json.load(open(cm.VERIF / "MANIFEST.json"))
+targets = [f"Props/{c['property_id']}.vo" for c in man["checks"]]
+# everything (keep going), then insist on the targets of the claimed checks
+ok, log = cm.coq_make(["-k"], timeout=3000)
+if not ok:
+    print(log[-3000:])
+ok, log = cm.coq_make(targets, timeout=3000)
+print(log[-2000:])
 raise SystemExit(0 if ok else 1)
 PY
